@@ -80,6 +80,11 @@ def _sld_case(keys, dens_kind='density', with_replace=False):
         sv = nsf.D2O_sld(mol, volume_fraction=v, D2O_fraction=d, **kw)
         E.eq('linear_in_v.sld_re', sv[0], v * s1[0] + (1 - v) * s0[0])
         E.eq('linear_in_v.sld_im', sv[1], v * s1[1] + (1 - v) * s0[1])
+        # a Formula object that carries its own density: the density keyword given in the call decides
+        own = formulas.formula(mol, density=E.real('rho_own', lo=0, lo_open=True, hi=25))
+        s1o = nsf.D2O_sld(own, volume_fraction=1, D2O_fraction=d, **kw)
+        E.eq('formula_object_with_own_density.sld_re', s1o[0], s1[0])
+        E.eq('formula_object_with_own_density.sld_im', s1o[1], s1[1])
         if with_replace:
             # the same through the real replace(): direct calculation on the substituted formula
             g0 = formulas.formula(mol, density=dens)
